@@ -2,7 +2,7 @@ CONSTANTS NHol = 4
           NWk = 3
           NSess = 4
           QDays = {1, 2, 3, 4, 5}
-          QSecs = {0, 46800, 46801, 81000}
+          QSecs = {0, 46800, 46801, 81000, 86399}
           Depth = 8
           KeepHist = TRUE
           AskMod = 16
